@@ -171,7 +171,27 @@ func c16Mutate(rng *rand.Rand, b []byte, other []byte) ([]byte, string) {
 	return b, name[1:]
 }
 
+// hand-written edge inputs per parser, drawn now and then
+var c16Edge = map[int][]string{
+	0:  {"", "\x00", "\xff\xff\xff\xff\xff\xff\xff\xff\xff", "\x03\x01\x02"},
+	1:  {"1,200,3\n", "1,2\n", ",,,,,,,,,,,\n", "1,200,3,4,5,err,,a,7,GET,u\n", "\n\n", "\"", "1,200,3,4,5,,,,9,GET,http://x,%%%\n"},
+	2:  {"{}", "{}\n", "null\n", "[]\n", "{\"timestamp\":\"x\"}\n", "{\"body\":\"***\"}\n", "\n", "{\"latency\":1e400}\n"},
+	3:  {"1,200,3\n", "{}\n", "", "\n", " ", "1,2,3,4,5,6\n"},
+	4:  {"GET\thttp://h/\n", "GET\rhttp://h/\n", "GET \n", " \n", "GET http://h/\n:\n", "GET http://h/\n@\n", "GET http://h/\nX\n", "#\n", "GET http://h/\n@/nonexistent/zzz\n"},
+	5:  {"{}\n", "\n\n", "{\"method\":\"GET\"}\n", "{\"method\":\"GET\",\"url\":\"http://h\",\"header\":null}\n", "[", "{\"body\":\"!!\"}\n", "null\n"},
+	6:  {"  ", "\t\t", "\r\n", "[]", "[ ]", "[,]", "[", "]", "][", "[0", "[-1s]", "[1ns,1ns]", "[9223372036854775807ns,1h]", "   []   "},
+	7:  {"/", "1/", "/s", "1/0", "1/-1s", "-5/s", "9223372036854775808", "1/9223372036854775807h", "1//s", "0x1/s"},
+	8:  {":", "", " : ", "a:", ":b", "a:b:c", "\x00:\x00"},
+	9:  {"", " ", "B", "-0", "1e3", "9999999999999999999999GB", "1.5.5MB"},
+	10: {":::", "a:b:c", "::::", "a:1:b", "a:1:b:2:c", "[::1]:80:[::2]:81", "a:x:b:y"},
+	11: {"", ",", ",,", ":", "[", "[::1", "1.2.3.4:99999", "a,b,c,"},
+}
+
 func c16Input(rng *rand.Rand, parser int) ([]byte, string) {
+	if rng.Intn(25) == 0 {
+		e := c16Edge[parser]
+		return []byte(e[rng.Intn(len(e))]), "edge"
+	}
 	switch rng.Intn(10) {
 	case 0: // random bytes
 		b := make([]byte, rng.Intn(200))
